@@ -103,7 +103,7 @@ func (d *fixtureDriver) realm() *schema.Realm {
 	}
 	r := schema.NewRealm()
 	for _, n := range names {
-		s := schema.New(n)
+		s := schema.New(n).SetComment("fixture schema")
 		d.tables(s)
 		r.AddSchemas(s)
 	}
